@@ -30,7 +30,9 @@ Inductive frame :=
 | FNotFound           (* status NOT_FOUND *)
 | FUnknown            (* any other status code *)
 | FUndecodable        (* status OK, UnmarshalBinary fails *)
-| FDecodePanic.       (* status OK, UnmarshalBinary panics (recovered by session.processResponses) *)
+| FDecodePanic        (* status OK, UnmarshalBinary panics (recovered by session.processResponses) *)
+| FValidatePanic.     (* status OK, the body decodes, Validate() PANICS (recovered by the same deferred
+                         recover of session.processResponses; the header never leaves processResponses) *)
 
 (** the headers carried by OK frames *)
 Definition frame_hdrs (fs : list frame) : list hdr :=
@@ -58,7 +60,7 @@ Fixpoint process_frames (fs : list frame) : perr + list hdr :=
       end
     else inl POther
   | FNotFound :: _ => inl PNotFound
-  | FUnknown :: _ | FUndecodable :: _ | FDecodePanic :: _ => inl POther
+  | FUnknown :: _ | FUndecodable :: _ | FDecodePanic :: _ | FValidatePanic :: _ => inl POther
   end.
 
 Definition process_responses (fs : list frame) : perr + list hdr :=
@@ -319,12 +321,44 @@ Definition GetRangeByHeight (drift : Z) (tv : hdr -> hdr -> tvres) (maxcap per :
 
 (** ** honest peers (C18) *)
 
-(** what an ExchangeServer whose store holds heights 1..avail of the chain [c] answers to a
-    range request: NOT_FOUND above its head, else the requested headers up to its head *)
+(** what an honest ExchangeServer (p2p/server.go handleRangeRequest over store.Store) whose store
+    holds the heights tail..avail of the chain [c] (empty when avail < tail) answers to a range
+    request: a stream reset (no frame) when origin+amount wraps or is not above origin
+    (ErrRangeMixUp), when more than header.MaxRangeRequestSize = 64 headers are asked for
+    (ErrHeadersLimitExceeded) and when the store is empty (ErrEmptyStore); its head for origin 0;
+    NOT_FOUND above its head and - since the store walks DOWN from the end of the range through
+    LastHeader links - whenever the origin lies below its tail (pruned); else the requested
+    headers up to its head *)
+Definition max_range_request : N := 64.
+
+Definition honest_answer_t (c : N -> hdr) (tail avail : N) (r : req) : list frame :=
+  let o := r_origin r in
+  let n := r_amount r in
+  if wrap64 (o + n) <=? o then []
+  else if o =? 0 then (if avail <? tail then [] else [FHdr (c avail)])
+  else if max_range_request <? n then []
+  else if avail <? tail then []
+  else if (avail <? o) || (o <? tail) then [FNotFound]
+  else map (fun k => FHdr (c k)) (seqN o (N.to_nat (N.min n (avail - o + 1)))).
+
+(** the unpruned server: its store holds the heights 1..avail *)
 Definition honest_answer (c : N -> hdr) (avail : N) (r : req) : list frame :=
-  if avail <? r_origin r then [FNotFound]
-  else map (fun n => FHdr (c n))
-           (seqN (r_origin r) (N.to_nat (N.min (r_amount r) (avail - r_origin r + 1)))).
+  honest_answer_t c 1 avail r.
+
+(** ** a Validate that may panic
+
+    [FValidatePanic] is an answer frame on whose header Validate() panics. The two functions
+    below replace every such frame by another frame [sub] (used in Proofs/SessionMoreP.v with any
+    frame that processResponses refuses with an ordinary error: a header whose Validate returns
+    an error, an undecodable body, ...). *)
+Definition calm_frame (sub : frame) (f : frame) : frame :=
+  match f with FValidatePanic => sub | f => f end.
+
+Definition calm_event (sub : frame) (ev : event) : event :=
+  match ev with
+  | ERespond p now fs => ERespond p now (map (calm_frame sub) fs)
+  | ev => ev
+  end.
 
 (** Exchange.request as used by Head, Get and GetByHeight (one header asked for):
     sendMessage reads one response, processResponses, validateChainID
@@ -343,7 +377,7 @@ Definition frame_eqb (a b : frame) : bool :=
   match a, b with
   | FHdr x, FHdr y => hdr_eqb x y
   | FNotFound, FNotFound | FUnknown, FUnknown | FUndecodable, FUndecodable
-  | FDecodePanic, FDecodePanic => true
+  | FDecodePanic, FDecodePanic | FValidatePanic, FValidatePanic => true
   | _, _ => false
   end.
 
@@ -547,5 +581,27 @@ Fixpoint perform_request (want : option N) (answers : list (list frame)) : optio
     match request_one want fs with
     | Some h => Some h
     | None => perform_request want rest
+    end
+  end.
+
+(** decidable honesty with pruned servers: the k-th answer is a prefix of what a server whose
+    store holds [fst (nth k ths)] .. [snd (nth k ths)] (head <= top) answers *)
+Fixpoint honest_evs_tb (drift : Z) (tv : hdr -> hdr -> tvres) (maxcap : N) (from : hdr)
+         (c : N -> hdr) (top : N) (s : sess) (evs : list event) (ths : list (N * N)) : bool :=
+  match evs with
+  | [] => true
+  | ev :: rest =>
+    match ev with
+    | ERespond p now fs =>
+      match ths with
+      | (t, a) :: ths' =>
+        match take_flight p (s_flight s) with
+        | Some (r, _) => (a <=? top) && prefix_b frame_eqb fs (honest_answer_t c t a r)
+        | None => true
+        end
+        && honest_evs_tb drift tv maxcap from c top (step drift tv maxcap from s ev) rest ths'
+      | [] => false
+      end
+    | _ => honest_evs_tb drift tv maxcap from c top (step drift tv maxcap from s ev) rest ths
     end
   end.
